@@ -8,6 +8,7 @@ R = {
  "C13-g": (7, True, "", "stabilizer(base_point != 0) on a table with more than one row"),
  "C08-g": (7, False, "C08 T9-symbol-parts (the cone part is printed from the list cone_degrees(ds) itself, only sorted and reversed; `*` + corner list per component of trace_boundary)", "two or more cone points of the same degree: 442 is printed as 42, 2222 as 2, 333 as 3"),
  "C16-g": (7, True, "reported by the generic T16 update-order table added an hour earlier (the inner walk variable d is no longer computed from itself)", "a cut that runs along two or more consecutive edges of the glued face, with a numbering that reaches that configuration (18 of 195 symbols up to 7 chambers)"),
+ "C18-g": (7, True, "", "|b| smaller than every column norm of a and a large denominator: [[100000]] x = [[1]]"),
  "C19-g": (7, True, "", "undirected edge cut with source label > sink label; inside_vertices is then the sink's side"),
 }
 for sid, (rnd, first, strength, needs) in R.items():
